@@ -598,6 +598,147 @@ META = {
         detected_by={"C20": "spherical_roundtrip (near-polar points)"},
         strengthening=None,
     ),
+    # ---- round 5 (code no earlier attempt touched; thin slices of the input domain) -------------------------------
+    "C01e": dict(
+        summary="no-slip exits of _get_rotation_and_strain return a 'passive rotation' A.L^T (full velocity gradient) instead of zero / A.W^T: rate not tangent to SO(3)",
+        needs="grain with exactly zero slip invariants (axis-aligned grain, coaxial strain rate) and a symmetric part of L",
+        detected_before_strengthening=True,
+        detected_by={"C01": "spin_skew[in-solver] / orthonormal on aligned textures", "C03": "spin_skew"},
+        strengthening=None,
+    ),
+    "C02e": dict(
+        summary="enstatite branch sorts slip systems with argsort(crss) instead of argsort(1/crss): the strain-energy kernel skips the only active system, all enstatite volume rates are 0",
+        needs="enstatite, M* > 0, >= 2 grains with different slip rates",
+        detected_before_strengthening=True,
+        detected_by={"C02": "volume_rate_equals_reference"},
+        strengthening=None,
+    ),
+    "C03e": dict(
+        summary="_get_strain_energy computes the dislocation density in log space: 0*log(inf) = NaN for infinite-CRSS systems when p == n",
+        needs="stress_exponent == deformation_exponent exactly (p = n = 2 lies in both documented ranges); enstatite always, olivine for grains with an exactly unresolved finite-CRSS system",
+        detected_before_strengthening=False,
+        detected_by={"C03": "rates_finite[direct]", "C02": "reference model"},
+        strengthening="gen.exponents(): end points, odd/even whole numbers and the coincidence p = n = 2 are drawn explicitly (C02, C03, C04 direct calls and every history)",
+    ),
+    "C04e": dict(
+        summary="_get_slip_rates_olivine: whole-number deformation exponents use ratio**int(n), which drops sign(I_s/I_max) for even n",
+        needs="olivine, n an even whole number (2, 4), a check of the lattice two-fold half of the property",
+        detected_before_strengthening=True,
+        detected_by={"C04": "int-2fold:textures_related (histories draw whole-number exponents)"},
+        strengthening="rate-level relations now draw whole-number exponents as well (gen.exponents)",
+    ),
+    "C05e": dict(
+        summary="LSODA set-up refuses intervals whose default first step |dt|/10 is below sqrt(eps) = 1.5e-8 -- an absolute time in the caller's units",
+        needs="k >= 1e2 together with an update interval shorter than 1.5e-7*k in strain (uneven partitions, near-duplicate timestamps)",
+        detected_before_strengthening=False,
+        detected_by={"C05": "rescale:pair_runs_complete (raises/ValueError at k = 1e2, 1e3 on refined partitions)"},
+        strengthening="histories may contain one very short interval (1e-6..1e-10 of the span, 'refine'); C05 pairs such histories with k in {1e2, 1e3}",
+    ),
+    "C06e": dict(
+        summary="update_all returns sum_i phi_i F_i ('volume-weighted aggregate F') without normalising by the weights actually used",
+        needs="update_all with minerals whose phase fractions do not sum to 1 (subset of the assemblage, duplicate phases)",
+        detected_before_strengthening=True,
+        detected_by={"C06": "update_all_returns_single_phase_F (one-mineral list under a two-phase assemblage)"},
+        strengthening=None,
+    ),
+    "C07e": dict(
+        summary="Mineral.__post_init__ converts ordinals with tuple(Enum)[ordinal] and only checks the upper bound: negative ordinals wrap onto valid members",
+        needs="a negative out-of-range regime/phase/fabric ordinal handed to the Mineral constructor",
+        detected_before_strengthening=True,
+        detected_by={"C07": "rejected_with_ValueError/returned_numbers (Mineral-level ordinal grid incl. -1)"},
+        strengthening=None,
+    ),
+    "C08e": dict(
+        summary="phase-fraction lookup sorts phase_assemblage before .index() while phase_fractions stays in the caller's order",
+        needs="assemblage listed (enstatite, olivine) with unequal fractions",
+        detected_before_strengthening=True,
+        detected_by={"C08": "b:permutation_bit_identical, a:*"},
+        strengthening=None,
+    ),
+    "C09e": dict(
+        summary="apply_gbs mask rewritten as fractions*n_grains < chi: differs from fractions < chi/n_grains within one ulp of the threshold",
+        needs="a grain exactly at (or one ulp below) chi/n_grains for (chi, n) pairs where fl(fl(chi/n)*n) != chi",
+        detected_before_strengthening=True,
+        detected_by={"C09": "call:frozen_orientation_is_reference on threshold_ties volumes"},
+        strengthening=None,
+    ),
+    "C10e": dict(
+        summary="third input-consistency check of voigt_averages iterates over minerals[1:]: the first-listed mineral's fractions count is never checked",
+        needs="first-listed (or only) mineral with more fractions snapshots than orientations snapshots",
+        detected_before_strengthening=False,
+        detected_by={"C10": "rejects_mismatch (reject=n_fraction_lists/first|only)"},
+        strengthening="C10 rejection cases place the inconsistent mineral second, first, or alone; fractions longer or shorter than orientations",
+    ),
+    "C11e": dict(
+        summary="tensors.rotate zeroes output components below 1e-10 in absolute value ('round-off noise')",
+        needs="a tensor with genuine components below 1e-10 (compliance in 1/Pa)",
+        detected_before_strengthening=False,
+        detected_by={"C11": "rotate_law / rotate_preserves_norm at magnitude<1e-6"},
+        strengthening="C11 magnitudes 1e-14..1e14 and purely relative tolerances (every map is homogeneous); units varied in C10 and C12 too",
+    ),
+    "C12e": dict(
+        summary="voigt_decompose refactored into a loop that fills only the lower triangle of the deviatoric contraction, which upper_tri_to_symmetric then discards",
+        needs="a principal axis within 10 degrees of a lab axis without coinciding with it (~7 % of random rotations; every small tilt)",
+        detected_before_strengthening=True,
+        detected_by={"C12": "frame_independent_scalars (hostile rotations incl. tiny)", "C11": "contractions"},
+        strengthening=None,
+    ),
+    "C13e": dict(
+        summary="symmetry_pgr 'symmetrises' a scatter matrix that is stored as lower triangle only: off-diagonals halved",
+        needs="a fabric oblique to the reference axes",
+        detected_before_strengthening=True,
+        detected_by={"C13": "pgr_equals_reference, frame relations"},
+        strengthening=None,
+    ),
+    "C14e": dict(
+        summary="misorientations_random: shared prefactor k = M/90 replaces N/180 in the second branch (equal only when N == 2M)",
+        needs="monoclinic lattice system",
+        detected_before_strengthening=True,
+        detected_by={"C14": "theory_integrates_to_one (monoclinic)"},
+        strengthening=None,
+    ),
+    "C15e": dict(
+        summary="shape validation computes len(fractions) before the rank guard: TypeError for 0-d fractions instead of ValueError",
+        needs="fractions given as a bare number / 0-d array / None",
+        detected_before_strengthening=False,
+        detected_by={"C15": "malformed_rejected/wrong_exception"},
+        strengthening="malformed catalogue extended down to rank 0 for either argument, Python/NumPy scalars and None",
+    ),
+    "C16e": dict(
+        summary="_parse_scsv_cell guards the 'fill NaN means float NaN' special case with func.__qualname__ != 'string' (always true): string columns read 'nan'",
+        needs="string field with fill exactly 'NaN' and a missing cell",
+        detected_before_strengthening=True,
+        detected_by={"C16": "roundtrip_values"},
+        strengthening=None,
+    ),
+    "C17e": dict(
+        summary="loaders validate meta with range(min_viscosity, max_viscosity): the last regime (ordinal 7) is rejected as corrupt",
+        needs="mineral with regime max_viscosity",
+        detected_before_strengthening=True,
+        detected_by={"C17": "from_file_restores_exactly / load_restores_exactly (all regimes drawn)"},
+        strengthening=None,
+    ),
+    "C18e": dict(
+        summary="strain_increment from the first two invariants of D (exact only when det D = 0)",
+        needs="a genuinely three-dimensional strain rate",
+        detected_before_strengthening=True,
+        detected_by={"C18": "strain_increment vs eigvalsh on generic 3x3 gradients"},
+        strengthening=None,
+    ),
+    "C19e": dict(
+        summary="input-method selection by the first matching key as written in the [input] table instead of the priority mesh > velocity_gradient > paths",
+        needs="an [input] table that also holds the (ignored) key of a lower-priority method, written before the higher-priority one",
+        detected_before_strengthening=False,
+        detected_by={"C19": "config_defaults_and_values (mode-specific input section), config_parses"},
+        strengthening="a third of the generated configurations carry ignored keys of other input methods; [input] key order is permuted",
+    ),
+    "C20e": dict(
+        summary="axial folding moved from point_density into the counting kernels, schmidt_count forgotten",
+        needs="kernel schmidt_count with axial data",
+        detected_before_strengthening=True,
+        detected_by={"C20": "density_equals_clipped_reference / sign independence for every kernel"},
+        strengthening=None,
+    ),
 }
 
 
